@@ -876,7 +876,7 @@ func (r *c04Runner) judge(cfg *c04Cfg, path string, s c04Spec, hdr string, t c04
 	run.Eval(r.cell(cfg, path, s, ref))
 	run.Count("cases_"+path, 1)
 	if obs.Panic != "" {
-		run.Violation("c04:panic:"+path, fmt.Sprintf("panic while handling a token (%s, %s): %s", cfg.Name, s, vfTrunc(obs.Panic, 200)), r.detail(cfg, path, s, hdr, t, ref, obs, ""))
+		run.Violation("c04:panic", fmt.Sprintf("%s path: panic while handling a token (%s, %s): %s", path, cfg.Name, s, vfTrunc(obs.Panic, 200)), r.detail(cfg, path, s, hdr, t, ref, obs, ""))
 		return
 	}
 	session := obs.session() || cookieIssued
@@ -1134,7 +1134,7 @@ func (r *c04Runner) refreshProbe(rc *c04Refresh) {
 	ro := c04RefreshObs{Probe: obs, Emitted: len(emitted), A: rc.identA}
 	if obs.Panic != "" {
 		run.Eval(r.cell(cfg, "refresh", rc.s, ref))
-		run.Violation("c04:panic:refresh", fmt.Sprintf("panic while handling a refreshed token (%s, %s): %s", cfg.Name, rc.s, vfTrunc(obs.Panic, 200)), r.detail(cfg, "refresh", rc.s, "", t, ref, ro, ""))
+		run.Violation("c04:panic", fmt.Sprintf("refresh path: panic while handling a refreshed token (%s, %s): %s", cfg.Name, rc.s, vfTrunc(obs.Panic, 200)), r.detail(cfg, "refresh", rc.s, "", t, ref, ro, ""))
 		return
 	}
 	isA := func(user, email, groups, pu string) bool {
@@ -1329,5 +1329,6 @@ func TestVerif_C04(t *testing.T) {
 	}
 	sort.Strings(keys)
 	run.Extra("configurations", keys)
-	run.Finish(2000, 600)
+	run.RaceCheck("")
+	run.Finish(2000, 1000)
 }
